@@ -99,6 +99,18 @@ def check_vector(v):
         if o2 != ("ok", wantg):
             rep("groupby(in-memory)", wantg, o2)
 
+    # a caller-supplied key function names the groups (streamed = in memory, whatever chunk holds a single group)
+    def groups_keyed(stream):
+        keyf = lambda k: "g:" + (k.to_string() if hasattr(k, "to_string") else str(k))
+        src = NpDataclassStream(iter(tchunks), dataclass=Interval) if stream else table
+        return [[name, [int(s) // 2 + 1 for s in g.start.tolist()]] for name, g in groupby(src, "chromosome", key=keyf)]
+    wantk = [["g:" + KEYNAMES[k], list(pos)] for k, pos in v["groups"]]
+    for stream in (True, False):
+        o = outcome(groups_keyed, stream)
+        calls += 1
+        if o != ("ok", wantk):
+            rep("groupby[key function%s]" % ("" if stream else ", in-memory"), wantk, o)
+
     # the same group-by with the key held as a ragged text column (as entries read from BAM / user-defined types have): keys that are
     # prefixes of one another (chr1, chr11) are different groups
     Hit = _hit_class()
@@ -204,6 +216,22 @@ def check_vector(v):
             if streamed:
                 return g.get_intervals(NpDataclassStream(iter([Interval(keys[x:y], ms[x:y], me[x:y]) for x, y in zip([0] + cuts[:-1], cuts)]), dataclass=Interval))
             return g.get_intervals(Interval(keys, ms, me))
+        # ONE interval object feeding two nodes of the same graph (merged and pile-up), evaluated together; nested intervals included
+        ns = np.where(first, 0, np.maximum(starts - 3, 0))
+        ne = np.where(first, SIZE, starts + 1)          # the first interval of every contig covers the contig: the others are nested in it
+
+        def niv():
+            if streamed:
+                return g.get_intervals(NpDataclassStream(iter([Interval(keys[x:y], ns[x:y], ne[x:y]) for x, y in zip([0] + cuts[:-1], cuts)]), dataclass=Interval))
+            return g.get_intervals(Interval(keys, ns, ne))
+        x = niv()
+        if streamed:
+            mg, pd_ = bnp.compute((x.merged(0), x.get_pileup().get_data()))
+            mg = mg.get_data()
+        else:
+            mg, pd_ = x.merged(0).get_data(), x.get_pileup().get_data()
+        res["merged+pileup of one object"] = [[[c.to_string() if hasattr(c, "to_string") else c, int(s), int(e)] for c, s, e in zip(mg.chromosome, mg.start.tolist(), mg.stop.tolist())],
+                                              [[c, int(s), int(e), int(x_)] for c, s, e, x_ in zip(pd_.chromosome.tolist(), pd_.start.tolist(), pd_.stop.tolist(), pd_.value.tolist())]]
         for dist in (0, 1, 2):
             mi = miv().merged(dist)
             d = (mi.compute() if streamed else mi).get_data()
@@ -230,7 +258,7 @@ def check_vector(v):
     else:
         for k in mo[1]:
             want_k, got_k = mo[1][k], so[1][k]
-            if k.startswith("merged"):
+            if k.startswith("merged("):
                 # meaning of merging within a contig (Intervals.tla: Merge): neighbours closer than the distance join, contigs never do
                 exp, dist = [], int(k[7:-1])
                 for c, a, b in zip(keys, (np.where(np.array([i == 0 or keys[i - 1] != keys[i] for i in range(n)]), 0, starts)).tolist(),
@@ -241,6 +269,8 @@ def check_vector(v):
                         exp.append([c, int(a), int(b)])
                 if want_k != exp:
                     rep("pipeline " + k + " (in memory)", exp, want_k)
+            if k == "merged+pileup of one object":
+                want_k, got_k = [want_k[0], _expand(want_k[1])], [got_k[0], _expand(got_k[1])]
             if k.endswith("get_data"):
                 want_k, got_k = _expand(want_k), _expand(got_k)      # records may be split differently; compare what they describe
             if want_k != got_k:
